@@ -74,6 +74,10 @@ def _ptarget(t):
 def pstmt(st):
     k = st[0]
     if k == 'print':
+        if len(st) > 3 and st[3] == 'open':
+            # the string literal is closed by the end of the line (last statement of a line only)
+            assert not st[2]
+            return 'PRINT "%s' % st[1]
         parts = ['"%s"' % st[1]]
         for item in st[2]:
             if isinstance(item, list) and item[0] == 's':
@@ -84,6 +88,8 @@ def pstmt(st):
     if k == 'let':
         return '%s=%s' % (_ptarget(st[1]), pexpr(st[2]))
     if k == 'lets':
+        if len(st) > 3 and st[3] == 'open':
+            return '%s="%s' % (st[1], st[2])
         return '%s="%s"' % (st[1], st[2])
     if k == 'for':
         t = 'FOR %s=%s TO %s' % (st[1], pexpr(st[2]), pexpr(st[3]))
@@ -1064,12 +1070,20 @@ def gen_c22(rng):
         kinds[r.randrange(nlines)] = 'data'
     # DATA first: decide the items of every data-bearing line
     data = {}
+    open_data = set()
     for i, k in enumerate(kinds):
         if k in ('data', 'mixed'):
             cnt = r.choice([1, 1, 2, 3, 5]) if k == 'data' else r.choice([1, 2])
             items = [_c22_item(r) for _ in range(cnt)]
             if all(it[0].strip() == '' for it in items):
                 items[0] = _c22_item(r, 'int')      # (a DATA statement with nothing after it is not generated)
+            if k == 'data' and r.random() < 0.15:
+                # a quoted item whose closing quote is the end of the line (last item of the line)
+                blen = r.choice([1, 3, 6])
+                body = r.choice(_UNQ) + ''.join(r.choice(_UNQ + ' ,:;0123456789') for _ in range(blen - 1))
+                items.append(['"' + body.rstrip(), body.rstrip(), None])
+                open_data.add(i)
+                feats['data_item_with_unclosed_quote'] = feats.get('data_item_with_unclosed_quote', 0) + 1
             data[i] = items
             if any(it[0].strip() == '' for it in items):
                 feats['empty_item'] = feats.get('empty_item', 0) + 1
@@ -1079,7 +1093,7 @@ def gen_c22(rng):
     for i in sorted(data):
         for it in data[i]:
             order.append((i, it))
-        if r.random() < 0.15:
+        if r.random() < 0.15 and i not in open_data:
             second[i] = [_c22_item(r, 'int')] + [_c22_item(r) for _ in range(r.choice([0, 1]))]
             for it in second[i]:
                 order.append((i, it))
@@ -1204,6 +1218,14 @@ def gen_c22(rng):
                 if j not in data:
                     feats['restore_to_line_without_data'] = feats.get('restore_to_line_without_data', 0) + 1
             stmts.append(['print', tag('p'), []])
+        last = stmts[-1]
+        if last[0] == 'print' and not last[2] and r.random() < 0.3:
+            # the line ends inside a string literal: the scan for the next DATA has to get over it
+            if r.random() < 0.3:
+                stmts.append(['lets', 'V$', 'o' + last[1], 'open'])
+            else:
+                last.append('open')
+            feats['line_ending_in_unclosed_string'] = feats.get('line_ending_in_unclosed_string', 0) + 1
         lines.append([nums[i], stmts])
     # tail: sometimes read on until the data runs out, then END; then unreachable DATA
     tailnum = n
